@@ -138,6 +138,17 @@ CHECKS["C18"] = {
             "clock reading at the invocation is compared only when time moves without jumps",
     "technique": "TLC design check of the ticker model + TLC trace validation of real ticker / flusher runs under TLC-generated clock schedules",
 }
+CHECKS["C13"] = {
+    "text": "K8sProvider.tla states the answer as CurrentPod(ip) and models the informer index, the memo cache and invalidation by the old "
+            "pod version; TLC checks NoStale / AnswersCurrent over every history up to the bound (IP reuse by a new pod while a finished "
+            "pod still carries it included). Every history ending in a lookup is replayed into the real provider fed by client-go's fake "
+            "clientset and watcher in a synctest bubble; each Peek and each IpSink/InfoSource answer is compared with CurrentPod and the "
+            "tags of its current version under three regex configurations.",
+    "design_ref": "6/C13",
+    "note": "sequential histories only; label/annotation content abstracted to a version number mapped to fixed key sets that cover the "
+            "key classes of the tag-name rule",
+    "technique": "TLC-enumerated pod histories with expected lookups replayed into the real provider over client-go fakes",
+}
 NOT_APPLICABLE = [{"property_id": p, "reason": "check not built yet (build in progress; see DESIGN.md Appendix B for the order)"}
                   for p in ALL if p not in CHECKS]
 ENGINES[0]["serves_properties"] = sorted(CHECKS)
